@@ -53,6 +53,11 @@ func (c *PacketOverStreamTunnel) Read(p []byte) (n int, err error) {
 	}
 	length := int(binary.BigEndian.Uint16(lengthBytes))
 	if length > len(p) {
+		// Skip the rest of this packet, so the next Read starts at a packet
+		// boundary instead of in the middle of this packet's data.
+		if _, err = io.CopyN(io.Discard, c.Conn, int64(length)+1); err != nil {
+			return 0, err
+		}
 		return 0, io.ErrShortBuffer
 	}
 
